@@ -123,9 +123,15 @@ func (c *scaleC) dump(ret string) string {
 	}
 	// what a client sees: the names inside the reported states, and the state found under each key
 	snames := []string{}
+	reported := []string{}
 	if sts, err := r.GetProcessesState(); err == nil {
 		for _, st := range sts.States {
 			snames = append(snames, st.Name)
+			ir := 0
+			if st.IsRunning {
+				ir = 1
+			}
+			reported = append(reported, fmt.Sprintf("%s:%s:%d", st.Name, st.Status, ir))
 		}
 	}
 	for _, k := range r.VerifStateNames() {
@@ -133,9 +139,9 @@ func (c *scaleC) dump(ret string) string {
 			snames = append(snames, "MISMATCH:"+k)
 		}
 	}
-	return fmt.Sprintf("ret=%s proj=%s states=%s snames=%s logs=%s run=%s info=%s alive=%d launches=%d stops=%d", ret,
+	return fmt.Sprintf("ret=%s proj=%s states=%s snames=%s logs=%s run=%s info=%s alive=%d launches=%d stops=%d rep=%s", ret,
 		sortedJoin(proj), sortedJoin(r.VerifStateNames()), sortedJoin(snames), sortedJoin(r.VerifLogNames()), sortedJoin(r.VerifRunningNamesNoLock()),
-		sortedJoin(info), alive, launches, stops)
+		sortedJoin(info), alive, launches, stops, sortedJoin(reported))
 }
 
 func (c *scaleC) Exec(op string) string {
